@@ -546,7 +546,66 @@ def r46(db, ctx):
     ctx.floor('R4.6', n, 3, 'reuse protocol sites')
 
 
+def r48(db, ctx):
+    ctx.rule('R4.8', 'configure(motif) is configure_wrap(motif.len() - 1) for every non-empty motif: the call is guarded by non-emptiness only '
+                     '(a motif as long as the sequence still has one position, which reads M - 1 look-ahead rows)')
+    fs = [f for f in db.fns.values() if f.path.startswith('lightmotif::seq::StripedSequence::') and f.name == 'configure' and not f.promoted_of and f.kind != 'Closure']
+    if len(fs) != 1:
+        ctx.fail('R4.8', 'lightmotif::seq::StripedSequence::configure', 'anchor', f'reason=anchor-missing: {len(fs)} bodies')
+        return
+    f = fs[0]
+    R = X.Rec(f)
+    calls = [(bi, t) for bi, t in f.calls() if (f.callee_short(t) or '').endswith('StripedSequence::configure_wrap')]
+    if len(calls) != 1:
+        ctx.fail('R4.8', f, 'delegation', f'reason=unrecognised-shape: {len(calls)} calls to configure_wrap')
+        return
+    bi, t = calls[0]
+    arg = norm(R.at(bi).operand(t['args'][1]))
+    is_len = lambda e_: norm(e_)[0] == 'call' and norm(e_)[1].rsplit('::', 1)[-1] in ('len', 'rows') and X.strip_refs(norm(e_)[2][0]) in (('p', 2), ('fld', ('p', 2), 'data'))
+    probs = []
+    mm = m(('bin', 'Sub', '$n', ('k', 1)), arg)
+    sat = m(('call~', 'saturating_sub', ('$n', ('k', 1))), arg)
+    chk = m(('fld', ('down', ('call~', 'checked_sub', ('$n', ('k', 1))), 'Some'), '0'), arg)
+    if not ((mm is not None and is_len(mm['$n'])) or (sat is not None and is_len(sat['$n'])) or (chk is not None and is_len(chk['$n']))):
+        probs.append(f'configure_wrap is called with {X.show(arg, 80)}, expected motif.len() - 1')
+    for r in G.relations(f, R, bi):
+        ok = False
+        if r[0] in ('true', 'false') and norm(r[1])[0] == 'call' and norm(r[1])[1].endswith('is_empty') and X.strip_refs(norm(r[1])[2][0]) in (('p', 2), ('fld', ('p', 2), 'data')):
+            ok = r[0] == 'false'
+        elif r[0] in ('ne', 'gt') and is_len(r[1]) and norm(r[2]) == ('k', 0):
+            ok = True
+        elif r[0] in ('ne', 'lt') and is_len(r[2]) and norm(r[1]) == ('k', 0):
+            ok = True
+        elif r[0] == 'ge' and is_len(r[1]) and norm(r[2]) == ('k', 1):
+            ok = True
+        elif r[0] == 'le' and is_len(r[2]) and norm(r[1]) == ('k', 1):
+            ok = True
+        if r[0] == 'switch':
+            d_ = norm(r[1])
+            # match motif.len() { 0 => (), n => .. }   |   if let Some(m) = motif.len().checked_sub(1) { .. }
+            if is_len(d_) and r[2] in (('notin', [0]),):
+                ok = True
+            cs = m(('discr', ('call~', 'checked_sub', ('$n', ('k', 1)))), d_)
+            if cs is not None and is_len(cs['$n']) and r[2] in (('eq', 1), ('notin', [0])):
+                ok = True
+        if not ok:
+            shown = X.show(norm(r[1]), 60) + (' ' + r[0] + ' ' + X.show(norm(r[2]), 60) if len(r) > 3 and isinstance(r[2], tuple) else f' is {r[0]}')
+            probs.append(f'the look-ahead rows are only added when {shown}: for the other non-empty motifs the sequence keeps too few look-ahead rows '
+                         '(every kernel reads M - 1 of them for the last position)')
+    if probs:
+        ctx.fail('R4.8', f, 'configure -> configure_wrap', '; '.join(probs), span=t['span'])
+    else:
+        ctx.ok('R4.8', f, 'configure_wrap(motif.len() - 1) under motif non-empty only', ['single delegation', 'no further guard'])
+
+
+def lookahead_rules(db, ctx):
+    """What every consumer of a configured striped sequence relies on (shared into C01, C02, C03, C16)."""
+    r45(db, ctx)
+    r48(db, ctx)
+
+
 def run(db, ctx):
+    r48(db, ctx)
     r41_42(db, ctx)
     r43(db, ctx)
     r44(db, ctx)
